@@ -301,6 +301,14 @@ class HistoryRun(object):
           # the undo already left numbers of another numeric type behind (C01's drift finding);
           # whatever the redo then computes differently (e.g. summary rows re-keyed) follows from it
           self._find("C03", DRIFT_SIG % "redo", "%s; drift after the undo at %r" % ("; ".join(d2[:2]), drift_mid[:2]), rec)
+        elif ed.numeric_drift(before, after) and \
+            set(x.split(" ")[1].split("[")[0].split(".")[0] for x in d2 if " " in x) <= set(c_[0] for c_ in ed.numeric_drift(before, after)):
+          # the ORIGINAL bundle changed cells of these tables only in int-vs-float (0.0 -> 0 when a group-by column
+          # became a reference), a change that equal_encoding drops from `stored` (the recorded drift finding): the
+          # redo, made of `stored` alone, keeps the old numbers there, and the summary rows keyed by them are
+          # re-created under other ids.  Only differences inside the tables that hold such cells are attributed.
+          self._find("C03", DRIFT_SIG % "redo", "%s; the bundle's own int-vs-float changes absent from stored: %r" % (
+            "; ".join(d2[:2]), ed.numeric_drift(before, after)[:2]), rec)
         elif drift:
           # cells that differ only in int-vs-float after the redo (the stored actions left the conversion out);
           # summary rows keyed by such a column are then re-created under other ids: same finding
@@ -724,14 +732,34 @@ def stale_lookup_formula(sch, t, c):
   return False
 
 
+def stale_lookup_columns(sch):
+  """(table, column) pairs whose formula is a stale lookup (see stale_lookup_formula), closed under READERS: formula
+  columns whose text reads such a column by name ($c, rec.c, $ref.c) carry its stale value (or its error) along."""
+  import re
+  stale = set((t, c) for t in sch for c in sch[t] if stale_lookup_formula(sch, t, c))
+  changed = bool(stale)
+  while changed:
+    changed = False
+    names = set(c for (_, c) in stale)
+    for t in sch:
+      for c, info in sch[t].items():
+        if (t, c) in stale or not info[2]:
+          continue
+        if any(re.search(r"[\$\.]%s\b" % re.escape(n), info[2]) for n in names):
+          stale.add((t, c))
+          changed = True
+  return stale
+
+
 def stale_lookup_only(doc, diffs):
   import re
   sch = doc.engine_schema()
   if not diffs:
     return False
+  stale = stale_lookup_columns(sch)
   for d in diffs:
     m = re.match(r"cell (\w+)\[\d+\]\.(\S+): ", d)
-    if not m or not stale_lookup_formula(sch, m.group(1), m.group(2)):
+    if not m or (m.group(1), m.group(2)) not in stale:
       return False
   return True
 
